@@ -354,6 +354,8 @@ class Interp:
                     v = v[1][s[1]]
                 elif v[0] == "enum":
                     v = v[4][s[1]]
+                elif v[0] == "closure" and isinstance(s[1], int) and s[1] < len(v[2]):
+                    v = v[2][s[1]]
                 else:
                     raise Undecided("field %s of %s value at %r" % (s[1], v[0], tg))
             elif s[0] == "br":
